@@ -941,7 +941,7 @@ def c17(case: Case):
         return out, n
     by_name = {}
     for m in case.pkg.modules:
-        for c in _all_classes(m):
+        for c in m.classes:          # bases refer to module-level classes; nested classes may reuse their names
             by_name[c.name] = c
     for t in truth_decls(case.pkg):
         if t["kind"] != "class" or not t["public"] or not t["obj"].base_refs:
@@ -1013,3 +1013,90 @@ def _duplicate_union_member(t):
             if d:
                 return d
     return None
+
+
+# ---------------------------------------------------------------------------------------------------------
+# output-only predicates (usable on any set of stub files, e.g. those generated from API objects)
+def files_c02(files: dict) -> list:
+    out = []
+    for path, text in files.items():
+        if not path.endswith(".sdsstub"):
+            continue
+        mod, err = sdsparse.parse(text, strict=True)
+        if err:
+            out.append({"what": f"{path} is not a valid stub file: {err}", "decl": path, "finding": None, "text": text[:1200]})
+    return out
+
+
+def files_c10(files: dict, module_names=None) -> list:
+    """module_names: names (and aliases) under which modules of the package may be re-exported as a whole"""
+    out = []
+    extra = {m.lstrip("_") for m in (module_names or [])}
+    for path, text in files.items():
+        if not path.endswith(".sdsstub"):
+            continue
+        mod, err = sdsparse.parse(text)
+        segs = path.split("/")
+        if ".." in segs or path.startswith("/"):
+            out.append({"what": f"{path} is not inside the output directory", "decl": path, "finding": None})
+        if mod is None:
+            continue
+        if segs[:-1] != mod["python_module"].split("."):
+            out.append({"what": f"{path}: directory does not spell the announced module path {mod['python_module']}", "decl": path, "finding": None})
+        base = segs[-1][: -len(".sdsstub")]
+        names = ({segs[-2].lstrip("_")} if len(segs) >= 2 else set()) | {d["pyname"].lstrip("_") for d in mod["decls"]}
+        if base.startswith("_") or (mod["decls"] and base not in names | extra):
+            out.append({"what": f"{path}: base name is neither its module nor a declaration it contains (without leading underscores)",
+                        "decl": path, "finding": None})
+    return out
+
+
+def _name_records(files: dict):
+    """(path, owner, kind, python name, rendered name, annotated?) for every named thing in the stubs"""
+    recs = []
+    for path, (mod, err) in sorted(parsed_files(files).items()):
+        if mod is None:
+            continue
+        recs.append((path, "", "package", mod["python_module"], mod["package"], "PythonModule" in mod["file_annotations"]))
+        for owner, d in sdsparse.walk_decls(mod):
+            recs.append((path, owner, d["kind"], d["pyname"], d["name"], "PythonName" in d["annotations"]))
+            for p in d.get("params") or []:
+                recs.append((path, owner + "." + d["pyname"], "param", p["pyname"], p["name"], p["pyname"] != p["name"]))
+            if d["kind"] == "enum":
+                for m in d["members"]:
+                    recs.append((path, owner + "." + d["pyname"], "member", m["pyname"], m["name"], m["pyname"] != m["name"]))
+    return recs
+
+
+def names_relation(files_off: dict, files_on: dict) -> list:
+    """C09: verbatim names without conversion; with it, annotation iff renamed, no underscores, same letters; the Python names
+    recoverable from both outputs coincide"""
+    out = []
+    off, on = _name_records(files_off), _name_records(files_on)
+    for path, owner, kind, py, name, ann in off:
+        if name != py or ann:
+            out.append({"what": f"{path}: {kind} {owner}.{py} is not emitted verbatim without naming conversion ({name})", "decl": py, "finding": None})
+    key = lambda r: (r[0], r[1], r[2], r[3])  # noqa: E731
+    if sorted(map(key, off)) != sorted(map(key, on)):
+        only_off = sorted(set(map(key, off)) - set(map(key, on)))[:3]
+        only_on = sorted(set(map(key, on)) - set(map(key, off)))[:3]
+        out.append({"what": f"the Python names recoverable from the stubs differ between the two settings: only without conversion {only_off}, "
+                            f"only with conversion {only_on}", "decl": "", "finding": None})
+    for path, owner, kind, py, name, ann in on:
+        if kind == "package":
+            segs_py, segs = py.split("."), name.split(".")
+            ok = len(segs_py) == len(segs) and all("_" not in b or b == "_" for b in segs)
+            if (py != name) != ann:
+                out.append({"what": f"{path}: @PythonModule present={ann} although package {name} vs module {py}", "decl": py, "finding": None})
+            continue
+        if kind == "enum":
+            if "_" in name.strip("_"):
+                out.append({"what": f"{path}: enum name {name} is not converted", "decl": py, "finding": "enum_name_not_converted"})
+            continue
+        if (py != name) != ann:
+            out.append({"what": f"{path}: {kind} {owner}.{py}: annotation present={ann} but rendered name is {name}", "decl": py, "finding": None})
+        if py != "_" and ("_" in name or name.lower() != py.replace("_", "").lower()):
+            out.append({"what": f"{path}: {kind} {py} is rendered as {name}", "decl": py, "finding": None})
+        if kind == "class" and name[:1].islower():
+            out.append({"what": f"{path}: class {py} is rendered as {name} (not UpperCamelCase)", "decl": py, "finding": None})
+    return out
